@@ -121,7 +121,23 @@ func c20File(c *run.Ctx, idx uint64) {
 	// the document; circles before, between or after the paths
 	var doc strings.Builder
 	f := func(v float32) string { return strconv.FormatFloat(float64(v), 'g', -1, 32) }
-	fmt.Fprintf(&doc, `<svg xmlns="http://www.w3.org/2000/svg" width="%s" height="%s" viewBox="%s %s %s %s">`+"\n", f(size), f(size), f(vbx), f(vby), f(size), f(size))
+	// the root element's width and height are display hints: present or not,
+	// equal to the size the caller configures or not, the configured (size,
+	// offset, outSize) triple is what transforms the coordinates
+	dims := ""
+	switch r.Intn(4) {
+	case 0:
+		c.Count("files_without_width_and_height", 1)
+	case 1:
+		other := float32(r.PickF(12, 18, 24, 36, 48, 96))
+		dims = fmt.Sprintf(` width="%s" height="%s"`, f(other), f(other))
+		if other != size {
+			c.Count("files_whose_width_differs_from_the_configured_size", 1)
+		}
+	default:
+		dims = fmt.Sprintf(` width="%s" height="%s"`, f(size), f(size))
+	}
+	fmt.Fprintf(&doc, `<svg xmlns="http://www.w3.org/2000/svg"%s viewBox="%s %s %s %s">`+"\n", dims, f(vbx), f(vby), f(size), f(size))
 	circleAt := r.Intn(nPaths + 1)
 	writeCircles := func() {
 		for _, cc := range circles {
